@@ -22,7 +22,7 @@ pub fn concretise_src(s: &str) -> String {
             '`' => out.push('\u{20ac}'),
             '#' => out.push('\u{1f600}'),
             '|' => out.push('\u{3000}'),
-            '\\' => out.push('\u{1}'),
+            '\u{c}' => out.push('\u{1}'),
             c => out.push(c),
         }
     }
